@@ -649,8 +649,7 @@ def canonicalise(tree, rel):
     moved = []
     seen_q = {}
     if refs:
-        import time as _time
-        _DEADLINE[0] = _time.time() + 5.0
+        _DEADLINE[0] = 2500000      # work units for this module (see towards)
 
         def walk_lists(node, prefix):
             for fld in ('body', 'orelse', 'finalbody', 'handlers'):
@@ -1113,6 +1112,9 @@ def inline_new_helpers(tree, known):
 # rules, the function they were written against; where the search stops short the rules simply see the closer spelling.
 
 import difflib as _difflib
+import sys as _sys
+if _sys.getrecursionlimit() < 6000:
+    _sys.setrecursionlimit(6000)
 
 _REFS = None
 
@@ -1226,6 +1228,11 @@ def _candidates_all(f, ref_assigns=(), ref_locals=(), changed=None):
                     yield ('stmt_to_ifexp', bi, i)
                 if isinstance(x, ast.Return) and isinstance(y, ast.Return) and x.value is not None and y.value is not None:
                     yield ('stmt_to_ifexp', bi, i)
+            # `if c: return X` directly followed by `return Y`  ->  `return X if c else Y`   (and the same for two assignments to one target)
+            if isinstance(st, ast.If) and not st.orelse and len(st.body) == 1 and i + 1 < len(b):
+                x, y = st.body[0], b[i + 1]
+                if isinstance(x, ast.Return) and isinstance(y, ast.Return) and x.value is not None:
+                    yield ('ret_pair_to_ifexp', bi, i)
             # R10 default then override  <->  if/else
             if isinstance(st, ast.Assign) and len(st.targets) == 1 and isinstance(st.targets[0], ast.Name) and _pure(st.value) and i + 1 < len(b):
                 nx = b[i + 1]
@@ -1598,6 +1605,10 @@ def _apply(f, cand, ref_assigns=()):
         x, y = st.body[0], st.orelse[0]
         e = ast.IfExp(test=st.test, body=x.value, orelse=y.value)
         b[i] = ast.Assign(targets=x.targets, value=e) if isinstance(x, ast.Assign) else ast.Return(value=e)
+    elif kind == 'ret_pair_to_ifexp':
+        x, y = st.body[0], b[i + 1]
+        yv = y.value if y.value is not None else ast.Constant(value=None)
+        b[i:i + 2] = [ast.Return(value=ast.IfExp(test=st.test, body=x.value, orelse=yv))]
     elif kind == 'default_to_else':
         nx = b[i + 1]
         nx.orelse = [st]
@@ -1780,25 +1791,29 @@ def towards(f, ref_text, budget=300, seconds=2.0):
     d0 = _dist(start, ref_lines)
     if d0 == 0:
         return f, 0, 0
-    t_end = _time.time() + seconds
-    if _DEADLINE[0] is not None:
-        t_end = min(t_end, _DEADLINE[0])
+    # deterministic work budget (never wall-clock: the verdict must not depend on machine load): one unit per syntax node copied
+    size = max(1, sum(1 for _ in ast.walk(f)))
+    units = min(600000, _DEADLINE[0] if _DEADLINE[0] is not None else 600000)
+    budget = max(20, min(budget * 4, units // size))
     best, best_d = f, d0
     seen = set(['\n'.join(start)])
     frontier = [(d0, 0, f, start)]
     tick = 0
     spent = 0
-    while frontier and spent < budget and best_d > 0 and _time.time() < t_end:
+    while frontier and spent < budget and best_d > 0:
         frontier.sort(key=lambda x: (x[0], x[1]))
         d, _t, cur, cur_lines = frontier.pop(0)
         if d > best_d + 6:
             break
         changed = _changed_lines(cur_lines, ref_lines)
         for cand in list(_candidates(cur, ref_assigns, ref_locals, changed)):
-            if spent >= budget or _time.time() >= t_end:
+            if spent >= budget:
                 break
             spent += 1
-            g = _copy.deepcopy(cur)
+            try:
+                g = _copy.deepcopy(cur)
+            except RecursionError:
+                break
             try:
                 if not _apply(g, cand, ref_assigns):
                     continue
@@ -1822,4 +1837,6 @@ def towards(f, ref_text, budget=300, seconds=2.0):
             if dg <= d + 2:
                 tick += 1
                 frontier.append((dg, tick, g, ls))
+    if _DEADLINE[0] is not None:
+        _DEADLINE[0] = max(0, _DEADLINE[0] - spent * size)
     return best, d0, best_d
